@@ -1,4 +1,5 @@
 import Harper.Model.Spell
+import Harper.Lemmas.SpellRule
 /-!
 # C06 — a word is reported misspelt exactly when the dictionary does not contain it
 
@@ -267,5 +268,258 @@ example : suggestions fnsAscii tinyDict [['c','a','t'], ['l','i','f','t'], ['P',
 only a re-casing of an entry passes the filter of the model (the real code never produces one) -/
 example : suggestions fnsAscii tinyDict [['p','a','r','i','s']] false id = [['p','a','r','i','s']] := by
   decide
+
+/-! ### w24: the suggestion list as the driver runs it (op `sugg`: `Spell.lintSuggestions`) and as the rule `SpellCheck` of
+w21 (op `spellr`: `SpellRule.postProcess`) computes it
+
+`Spell.lintSuggestions` = back-off over the three searches, `suggestionsE` (= `suggestions` + the `unwrap` of the dialect filter),
+capitalisation decided by the misspelt word's first letter. Op `sugg` compares it with the suggestion list of the lint a real
+`SpellCheck` reports, on the curated dictionary and exhaustively on small ones. -/
+
+/-- the back-off loop returns one of the searches (the first non-empty one), or nothing when every search is empty -/
+theorem backoff_spec (rounds : List (List (List Char))) :
+    (backoff rounds = [] ∧ ∀ r ∈ rounds, r = []) ∨
+    (∃ pre r post, rounds = pre ++ r :: post ∧ (∀ p ∈ pre, p = []) ∧ r ≠ [] ∧ backoff rounds = r) := by
+  induction rounds with
+  | nil => exact Or.inl ⟨rfl, by simp⟩
+  | cons r rs ih =>
+    cases r with
+    | nil =>
+      rcases ih with ⟨h1, h2⟩ | ⟨pre, r, post, h1, h2, h3, h4⟩
+      · refine Or.inl ⟨by simpa [backoff] using h1, ?_⟩
+        intro x hx
+        rcases List.mem_cons.mp hx with rfl | hx
+        · rfl
+        · exact h2 x hx
+      · refine Or.inr ⟨[] :: pre, r, post, by simp [h1], ?_, h3, by simpa [backoff] using h4⟩
+        intro x hx
+        rcases List.mem_cons.mp hx with rfl | hx
+        · rfl
+        · exact h2 x hx
+    | cons c cs => exact Or.inr ⟨[], c :: cs, rs, rfl, by simp, by simp, by simp [backoff]⟩
+
+/-- `suggestionsE` is `suggestions` unless the code panics, and it panics exactly when some candidate has the key of no entry
+(`get_word_metadata(v).unwrap()`), whichever the other candidates are -/
+theorem suggestionsE_eq (f : Fns) (dict : List Entry) (fuzzy : List (List Char)) (cap : Bool) (up : List Char → List Char) :
+    ((∀ s ∈ fuzzy, ∃ e ∈ dict, key f e.canon = key f s) ∧
+        suggestionsE f dict fuzzy cap up = .ok (suggestions f dict fuzzy cap up)) ∨
+    ((∃ s ∈ fuzzy, ∀ e ∈ dict, key f e.canon ≠ key f s) ∧ suggestionsE f dict fuzzy cap up = .error .unwrapNone) := by
+  unfold suggestionsE
+  by_cases h : fuzzy.all (fun s => (lookup f dict s).isSome) = true
+  · left
+    refine ⟨?_, by simp only [h, if_true]⟩
+    intro s hs
+    have h1 := List.all_eq_true.mp h s hs
+    obtain ⟨e, he⟩ := Option.isSome_iff_exists.mp h1
+    have hm := List.mem_of_find?_eq_some he
+    have hk := List.find?_some he
+    exact ⟨e, hm, by simpa using hk⟩
+  · right
+    refine ⟨?_, by simp only [h]; rfl⟩
+    have h' : ¬ ∀ s ∈ fuzzy, (lookup f dict s).isSome = true := fun hh => h (List.all_eq_true.mpr hh)
+    have ⟨s, hs⟩ := Classical.not_forall.mp h'
+    have ⟨hs1, hs2⟩ := Classical.not_imp.mp hs
+    refine ⟨s, hs1, ?_⟩
+    intro e he hk
+    apply hs2
+    unfold lookup
+    rw [List.find?_isSome]
+    exact ⟨e, he, by simp [hk]⟩
+
+/-- no panic when every candidate is a listed spelling (`hf`, monitored by the harness on every candidate list) -/
+theorem suggestionsE_ok (f : Fns) (dict : List Entry) (fuzzy : List (List Char))
+    (hf : ∀ s ∈ fuzzy, ∃ e ∈ dict, e.canon = s) (cap : Bool) (up : List Char → List Char) :
+    suggestionsE f dict fuzzy cap up = .ok (suggestions f dict fuzzy cap up) := by
+  rcases suggestionsE_eq f dict fuzzy cap up with ⟨_, h⟩ | ⟨⟨s, hs, hn⟩, _⟩
+  · exact h
+  · obtain ⟨e, he, rfl⟩ := hf s hs
+    exact absurd rfl (hn e he)
+
+/-- the suggestions keep the order of the candidates: without capitalisation they are the first three candidates (at most) the
+dialect allows -/
+theorem suggestions_order (f : Fns) (dict : List Entry) (fuzzy : List (List Char)) (up : List Char → List Char) :
+    (suggestions f dict fuzzy false up).Sublist fuzzy ∧
+    (suggestions f dict fuzzy false up).length =
+      min 3 (fuzzy.filter fun s => match lookup f dict s with | some e => e.dialectOk | none => false).length ∧
+    ∀ cap, suggestions f dict fuzzy cap up =
+      if cap = true then (suggestions f dict fuzzy false up).map up else suggestions f dict fuzzy false up := by
+  refine ⟨?_, ?_, ?_⟩
+  · simp only [suggestions, Bool.false_eq_true, if_false]
+    exact (List.take_sublist _ _).trans List.filter_sublist
+  · simp only [suggestions, Bool.false_eq_true, if_false, List.length_take]
+    rfl
+  · intro cap
+    cases cap <;> simp [suggestions]
+
+/-- **the corollary on what op `sugg` runs.** Under `UniqueKeys`, when every candidate of the search the back-off loop stops at
+is a listed spelling: `lintSuggestions` does not panic, offers at most three words, and each is — up to `up` on its first letter
+when the misspelt word starts with an upper-case letter — the listed spelling of an entry that allows the dialect and is one of
+that search's candidates. -/
+theorem lintSuggestions_are_words (f : Fns) (dict : List Entry) (hu : UniqueKeys f dict) (isUpper : Char → Bool)
+    (up : Char → Char) (w : List Char) (rounds : List (List (List Char)))
+    (hf : ∀ s ∈ backoff rounds, ∃ e ∈ dict, e.canon = s) :
+    ∃ out, lintSuggestions f dict isUpper up w rounds = .ok out ∧ out.length ≤ 3 ∧
+      ∀ s ∈ out, ∃ e ∈ dict, e.dialectOk = true ∧ e.canon ∈ backoff rounds ∧
+        (if startsUpper isUpper w = true then s = capFirst up e.canon else s = e.canon) := by
+  refine ⟨_, suggestionsE_ok f dict _ hf _ _, (suggestions_are_words f dict _ _ _).1, ?_⟩
+  exact suggestions_are_words_strong f dict hu _ hf _ _
+
+/-- without `hf`: whatever the searches returned, a list that IS offered has at most three words, each a candidate of the chosen
+search (up to its first letter) sharing its key with an entry that allows the dialect; otherwise the code panics -/
+theorem lintSuggestions_cases (f : Fns) (dict : List Entry) (isUpper : Char → Bool) (up : Char → Char) (w : List Char)
+    (rounds : List (List (List Char))) :
+    lintSuggestions f dict isUpper up w rounds = .error .unwrapNone ∨
+    ∃ out, lintSuggestions f dict isUpper up w rounds = .ok out ∧ out.length ≤ 3 ∧
+      ∀ s ∈ out, ∃ s₀ ∈ backoff rounds, (s = s₀ ∨ s = capFirst up s₀) ∧
+        ∃ e ∈ dict, key f e.canon = key f s₀ ∧ e.dialectOk = true := by
+  rcases suggestionsE_eq f dict (backoff rounds) (startsUpper isUpper w) (capFirst up) with ⟨_, h⟩ | ⟨_, h⟩
+  · exact Or.inr ⟨_, h, (suggestions_are_words f dict _ _ _).1, (suggestions_are_words f dict _ _ _).2⟩
+  · exact Or.inl h
+
+/-! #### the same list in `SpellCheck` as a rule (w21, `Model/SpellRule.lean`, op `spellr`)
+
+`SpellRule.postProcess` works on the result of the uncached search AFTER the dialect filter (data of `spellr`, recomputed by the
+harness from the public API); `Spell.suggestions` contains the filter. They are one function (`postProcess_eq_suggestions`,
+`Lemmas/SpellRule.lean`); here the statement for what the two ops run. -/
+
+/-- `Spell.capFirst` is `SpellRule.capitaliseFirst` -/
+theorem capFirst_eq (up : Char → Char) : capFirst up = SpellRule.capitaliseFirst up := by
+  funext w; cases w <;> rfl
+
+/-- **what `spellr` runs is what `sugg` runs**: when the dialect filter does not panic, `lintSuggestions` returns
+`SpellRule.postProcess` of the filtered result of the back-off search -/
+theorem spellRule_suggestions_eq (senv : SpellRule.SpellEnv) (f : Fns) (dict : List Entry) (w : List Char)
+    (rounds : List (List (List Char))) (h : ∀ s ∈ backoff rounds, ∃ e ∈ dict, key f e.canon = key f s) :
+    lintSuggestions f dict senv.isUpper senv.upperFirst w rounds =
+      .ok (SpellRule.postProcess senv w ((backoff rounds).filter fun s =>
+        match lookup f dict s with | some e => e.dialectOk | none => false)) := by
+  rcases suggestionsE_eq f dict (backoff rounds) (startsUpper senv.isUpper w) (capFirst senv.upperFirst) with
+    ⟨_, h1⟩ | ⟨⟨s, hs, hn⟩, _⟩
+  · have e := SpellRule.postProcess_eq_suggestions senv f dict (backoff rounds) w
+    rw [lintSuggestions, h1, capFirst_eq]
+    refine congrArg Except.ok ?_
+    cases w with
+    | nil => exact e.symm
+    | cons c cs => exact e.symm
+  · obtain ⟨e, he, hk⟩ := h s hs
+    exact absurd hk (hn e he)
+
+/-- **`suggestions_are_words_strong` for the lint the rule `SpellCheck` reports** (`SpellRule.spellLintOf`, the lint of
+`ruleSpellCheck` / `spellCheckLint` / `spellSession`): when the word data hold the dialect-filtered result of the back-off search
+over a dictionary with unique keys and every candidate is a listed spelling, every suggestion of the lint is `ReplaceWith` the
+listed spelling of an entry allowed by the dialect, its first letter upper-cased when the misspelt word's is -/
+theorem spellRule_suggestions_are_words (senv : SpellRule.SpellEnv) (f : Fns) (dict : List Entry) (hu : UniqueKeys f dict)
+    (w : List Char) (rounds : List (List (List Char))) (hf : ∀ s ∈ backoff rounds, ∃ e ∈ dict, e.canon = s) (sp : Span) :
+    let l := SpellRule.spellLintOf senv sp w ((backoff rounds).filter fun s =>
+      match lookup f dict s with | some e => e.dialectOk | none => false)
+    l.suggs.length ≤ 3 ∧
+    ∀ sg ∈ l.suggs, ∃ e ∈ dict, e.dialectOk = true ∧ e.canon ∈ backoff rounds ∧
+      sg = .replaceWith (if startsUpper senv.isUpper w = true then capFirst senv.upperFirst e.canon else e.canon) := by
+  obtain ⟨out, h1, h2, h3⟩ := lintSuggestions_are_words f dict hu senv.isUpper senv.upperFirst w rounds hf
+  have hk : ∀ s ∈ backoff rounds, ∃ e ∈ dict, key f e.canon = key f s := by
+    intro s hs
+    obtain ⟨e, he, rfl⟩ := hf s hs
+    exact ⟨e, he, rfl⟩
+  rw [spellRule_suggestions_eq senv f dict w rounds hk] at h1
+  cases h1
+  simp only [SpellRule.spellLintOf, List.length_map]
+  refine ⟨h2, ?_⟩
+  intro sg hsg
+  obtain ⟨s, hs, rfl⟩ := List.mem_map.mp hsg
+  obtain ⟨e, he, hd, hm, hc⟩ := h3 s hs
+  refine ⟨e, he, hd, hm, ?_⟩
+  split
+  · rename_i hcap; rw [if_pos hcap] at hc; rw [hc]
+  · rename_i hcap; rw [if_neg hcap] at hc; rw [hc]
+
+/-! #### non-vacuity, on the ASCII instance -/
+
+def asciiIsUpper (c : Char) : Bool := decide ('A' ≤ c ∧ c ≤ 'Z')
+def asciiUp (c : Char) : Char := if 'a' ≤ c ∧ c ≤ 'z' then Char.ofNat (c.toNat - 32) else c
+
+/-- six entries, five allowed by the dialect (one capitalised), one of another dialect -/
+def sixDict : List Entry :=
+  [⟨['c','a','t'], true⟩, ⟨['c','o','t'], true⟩, ⟨['c','u','t'], true⟩, ⟨['c','a','r','t'], true⟩, ⟨['C','a','t','o'], true⟩,
+   ⟨['c','a','t','s'], false⟩]
+
+theorem uniqueKeys_sixDict : UniqueKeys fnsAscii sixDict := by unfold UniqueKeys sixDict; decide
+
+/-- what the item asks for: the misspelt `Cta` (capitalised), the first search empty, the second returning a lower-case entry, the
+entry of another dialect (`lift`, filtered out) and a capitalised entry: `Cat`, `Paris`, in this order -/
+example : lintSuggestions fnsAscii tinyDict asciiIsUpper asciiUp ['C','t','a']
+      [[], [['c','a','t'], ['l','i','f','t'], ['P','a','r','i','s']], [['d','o','g']]]
+    = .ok [['C','a','t'], ['P','a','r','i','s']] := by decide
+
+/-- non-vacuity of `lintSuggestions_are_words`: all hypotheses at once on that input (`UniqueKeys`, every candidate of the chosen
+search a listed spelling); the third search holds `dog`, which no entry lists — it is not looked at -/
+example : ∃ out, lintSuggestions fnsAscii tinyDict asciiIsUpper asciiUp ['C','t','a']
+      [[], [['c','a','t'], ['l','i','f','t'], ['P','a','r','i','s']], [['d','o','g']]] = .ok out ∧ out.length ≤ 3 ∧
+      ∀ s ∈ out, ∃ e ∈ tinyDict, e.dialectOk = true ∧
+        e.canon ∈ backoff [[], [['c','a','t'], ['l','i','f','t'], ['P','a','r','i','s']], [['d','o','g']]] ∧
+        (if startsUpper asciiIsUpper ['C','t','a'] = true then s = capFirst asciiUp e.canon else s = e.canon) :=
+  lintSuggestions_are_words fnsAscii tinyDict uniqueKeys_tinyDict asciiIsUpper asciiUp ['C','t','a'] _ (by decide)
+
+/-- more than three allowed candidates: the first three in the order of the search, the other-dialect `cats` skipped BEFORE the
+cut (it is second), the capitalised entry `Cato` and `cart` cut off; lower-case misspelling: nothing is upper-cased -/
+example : lintSuggestions fnsAscii sixDict asciiIsUpper asciiUp ['c','t']
+      [[['c','a','t'], ['c','a','t','s'], ['c','o','t'], ['c','u','t'], ['C','a','t','o'], ['c','a','r','t']]]
+    = .ok [['c','a','t'], ['c','o','t'], ['c','u','t']] := by decide
+
+/-- non-vacuity of `lintSuggestions_are_words` with more candidates than are offered, upper-case misspelling `CT` -/
+example : ∃ out, lintSuggestions fnsAscii sixDict asciiIsUpper asciiUp ['C','T']
+      [[['c','a','t'], ['c','a','t','s'], ['c','o','t'], ['c','u','t'], ['C','a','t','o'], ['c','a','r','t']]] = .ok out ∧
+      out.length ≤ 3 ∧
+      ∀ s ∈ out, ∃ e ∈ sixDict, e.dialectOk = true ∧
+        e.canon ∈ backoff [[['c','a','t'], ['c','a','t','s'], ['c','o','t'], ['c','u','t'], ['C','a','t','o'], ['c','a','r','t']]] ∧
+        (if startsUpper asciiIsUpper ['C','T'] = true then s = capFirst asciiUp e.canon else s = e.canon) :=
+  lintSuggestions_are_words fnsAscii sixDict uniqueKeys_sixDict asciiIsUpper asciiUp ['C','T'] _ (by decide)
+
+example : lintSuggestions fnsAscii sixDict asciiIsUpper asciiUp ['C','T']
+      [[['c','a','t'], ['c','a','t','s'], ['c','o','t'], ['c','u','t'], ['C','a','t','o'], ['c','a','r','t']]]
+    = .ok [['C','a','t'], ['C','o','t'], ['C','u','t']] := by decide
+
+/-- the panic of the code: a candidate of the chosen search that the dictionary does not know (`dog`), although the others are
+fine — and the second disjunct of `suggestionsE_eq` / first of `lintSuggestions_cases` is inhabited -/
+example : lintSuggestions fnsAscii tinyDict asciiIsUpper asciiUp ['c','t','a'] [[['c','a','t'], ['d','o','g']]]
+    = .error .unwrapNone := by decide
+
+/-- non-vacuity of `suggestionsE_ok` and of both disjuncts of `suggestionsE_eq` -/
+example : suggestionsE fnsAscii tinyDict [['c','a','t'], ['l','i','f','t']] true (capFirst asciiUp) = .ok [['C','a','t']] ∧
+    (∀ s ∈ [['c','a','t'], ['l','i','f','t']], ∃ e ∈ tinyDict, e.canon = s) ∧
+    suggestionsE fnsAscii tinyDict [['d','o','g']] true (capFirst asciiUp) = .error .unwrapNone ∧
+    (∃ s ∈ [['d','o','g']], ∀ e ∈ tinyDict, key fnsAscii e.canon ≠ key fnsAscii s) := by decide
+
+/-- non-vacuity of `backoff_spec`, second disjunct with a non-empty prefix of empty searches; and the first disjunct -/
+example : backoff [[], [], [['c','a','t']], [['d','o','g']]] = [['c','a','t']] ∧ backoff [[], [], []] = [] := by decide
+
+/-- non-vacuity of `suggestions_order`: the filter drops the second of five candidates, the cut the fifth -/
+example : suggestions fnsAscii sixDict [['c','a','t'], ['c','a','t','s'], ['c','o','t'], ['c','u','t'], ['c','a','r','t']] false id
+    = [['c','a','t'], ['c','o','t'], ['c','u','t']] := by decide
+
+/-- a `SpellEnv` for the examples: ASCII `is_uppercase` / `to_uppercase` -/
+def envAscii : SpellRule.SpellEnv := ⟨fun _ => default, asciiIsUpper, asciiUp⟩
+
+/-- non-vacuity of `spellRule_suggestions_eq`: the rule's post-processing of the filtered search result of the example above IS the
+list op `sugg` computes -/
+example : lintSuggestions fnsAscii tinyDict asciiIsUpper asciiUp ['C','t','a']
+      [[], [['c','a','t'], ['l','i','f','t'], ['P','a','r','i','s']], [['d','o','g']]]
+    = .ok (SpellRule.postProcess envAscii ['C','t','a'] [['c','a','t'], ['P','a','r','i','s']]) :=
+  spellRule_suggestions_eq envAscii fnsAscii tinyDict ['C','t','a'] _ (by decide)
+
+/-- non-vacuity of `spellRule_suggestions_are_words`: the lint of the rule on `Cta` offers `ReplaceWith Cat`, `ReplaceWith Paris` -/
+example : (SpellRule.spellLintOf envAscii ⟨0, 3⟩ ['C','t','a'] [['c','a','t'], ['P','a','r','i','s']]).suggs
+    = [.replaceWith ['C','a','t'], .replaceWith ['P','a','r','i','s']] := by decide
+
+example :
+    let l := SpellRule.spellLintOf envAscii ⟨0, 3⟩ ['C','t','a']
+      ((backoff [[], [['c','a','t'], ['l','i','f','t'], ['P','a','r','i','s']]]).filter fun s =>
+        match lookup fnsAscii tinyDict s with | some e => e.dialectOk | none => false)
+    l.suggs.length ≤ 3 ∧
+    ∀ sg ∈ l.suggs, ∃ e ∈ tinyDict, e.dialectOk = true ∧
+      e.canon ∈ backoff [[], [['c','a','t'], ['l','i','f','t'], ['P','a','r','i','s']]] ∧
+      sg = .replaceWith (if startsUpper envAscii.isUpper ['C','t','a'] = true then capFirst envAscii.upperFirst e.canon
+        else e.canon) :=
+  spellRule_suggestions_are_words envAscii fnsAscii tinyDict uniqueKeys_tinyDict ['C','t','a']
+    [[], [['c','a','t'], ['l','i','f','t'], ['P','a','r','i','s']]] (by decide) ⟨0, 3⟩
 
 end Harper.C06
